@@ -33,8 +33,8 @@ from .symtorch import ST, sym, _obj_f
 
 
 class Decl:
-    def __init__(self, name, shape, lo, hi, kind="real"):
-        self.name, self.shape, self.lo, self.hi, self.kind = name, tuple(shape), lo, hi, kind
+    def __init__(self, name, shape, lo, hi, kind="real", lo_incl=False):
+        self.name, self.shape, self.lo, self.hi, self.kind, self.lo_incl = name, tuple(shape), lo, hi, kind, bool(lo_incl)
 
 
 class MkBase:
@@ -50,7 +50,7 @@ class MkSym(MkBase):
 
     def real(self, name, shape=(), lo=None, hi=None, lo_incl=False):
         """symbolic tensor with every element in (lo, hi) (lo_incl: [lo, hi))"""
-        self.decls.append(Decl(name, shape, lo, hi))
+        self.decls.append(Decl(name, shape, lo, hi, lo_incl=lo_incl))
         positive = lo is not None and lo >= 0 and not (lo_incl and lo == 0)
         nonneg = lo is not None and lo >= 0
         t = sym(name, shape, positive=positive, nonneg=nonneg)
@@ -108,7 +108,7 @@ class MkNum(MkBase):
 
     def real(self, name, shape=(), lo=None, hi=None, lo_incl=False):
         shape = tuple(shape)
-        self.decls.append(Decl(name, shape, lo, hi))
+        self.decls.append(Decl(name, shape, lo, hi, lo_incl=lo_incl))
         if shape == ():
             return torch.tensor(float(self.env[name]), dtype=self.dtype)
         out = torch.empty(shape, dtype=self.dtype)
@@ -474,10 +474,75 @@ def prove_scenario(scn, *, seed=0, crosscheck=2, max_paths=4000, timeout_ms=1000
                     if not _close(float(a), float(b), 1e-7, 1e-9):
                         raise RuntimeError("cross-check %s: claim proved symbolically but numerically false at %s: %r vs %r" % (cs[1], env, a, b))
                 xchecks += 1
-    return Result(backend="nf" + ("+z3" if n_smt else ""), paths=len(results), paths_outside_domain=ex.infeasible_paths, identities=n_ident,
+    n_boundary = _boundary_probe(scn, sym_paths, rng, fns, rtol, replay)
+    return Result(backend="nf" + ("+z3" if n_smt else ""), boundary_points=n_boundary, paths=len(results), paths_outside_domain=ex.infeasible_paths, identities=n_ident,
                   smt_goals=n_smt, crosschecks=xchecks, statement="; ".join(statements)[:600],
                   side_conditions=len(nf.SIDE), constant_residuals_below_1e_12=const_slack[0],
                   **({"raised": raised_notes[0]} if raised_notes else {}))
+
+
+def _boundary_probe(scn, sym_paths, rng, fns, rtol, replay):
+    """Closed ends of the declared domain.  The symbolic proof is about generic points: an input declared on [lo, hi) takes the value lo on a set
+    of measure zero, where an expression such as 0/p degenerates although the property includes that point.  For every input declared with a
+    CLOSED lower end the real code is run concretely with one element of that input exactly at the end, the other inputs at a point of
+    the domain: the value must be finite and agree with the specification (where the specification itself is finite there).
+    Returns the number of boundary points evaluated."""
+    n = 0
+    seen = set()
+    for claims, mk, assumptions in sym_paths[:4]:
+        closed = [d for d in mk.decls if d.lo_incl and d.lo is not None and d.name not in seen]
+        if not closed:
+            continue
+        base = find_point(mk.decls, assumptions, rng, fns=fns)
+        if base is None:
+            continue
+        probes = []
+        for d in closed:
+            seen.add(d.name)
+            keys = [d.name] if d.shape == () else ["%s[%s]" % (d.name, ",".join(map(str, ix))) for ix in np.ndindex(*d.shape)]
+            # one element at a time (a whole tensor at its closed end - e.g. an all-zero partial-likelihood vector - is usually outside
+            # the property's domain although each single entry may be at the end)
+            for k in (keys if len(keys) <= 3 else rng.sample(keys, 3)):
+                probes.append((d, k))
+        for d, k in probes:
+            env = dict(base)
+            env[k] = float(d.lo)
+            try:
+                num = scn(MkNum(env))
+            except Infeasible:
+                continue
+            except (ZeroDivisionError, OverflowError, ValueError) as e:
+                if _raised_in_repo(e):
+                    raise Refuted("at the closed end %s = %s of its domain the code under contract raises %s: %s" % (k, d.lo, type(e).__name__, e),
+                                  witness={"env": env, "boundary": d.name}, replay=_with_env(replay, env), confirmed=True)
+                continue      # the oracle is undefined at the boundary
+            except Exception as e:
+                if _raised_in_repo(e):
+                    raise Refuted("at the closed end %s = %s of its domain the code under contract raises %s: %s" % (k, d.lo, type(e).__name__, e),
+                                  witness={"env": env, "boundary": d.name}, replay=_with_env(replay, env), confirmed=True)
+                continue
+            n += 1
+            for cl in num:
+                if cl[0] != "eq":
+                    continue
+                try:
+                    L, _ = _flat(cl[2])
+                    R, _ = _flat(cl[3])
+                except Exception:
+                    continue
+                if len(L) != len(R):
+                    continue
+                for a, b in zip(L, R):
+                    a, b = float(a), float(b)
+                    spec_ok = b == b and abs(b) != float("inf")
+                    if not spec_ok:
+                        continue          # the specification itself is not finite at the boundary: nothing required
+                    if a != a or abs(a) == float("inf") or not _close(a, b, max(rtol, 1e-7), 1e-9):
+                        raise Refuted("at the closed end %s = %s of its domain claim %s fails on the real code: value %r, specification %r (the symbolic proof "
+                                      "covers generic points only)" % (k, d.lo, cl[1], a, b),
+                                      witness={"env": env, "boundary": d.name, "claim": cl[1], "value": a, "specification": b},
+                                      replay=_with_env(replay, env), confirmed=True)
+    return n
 
 
 def _with_env(replay, env):
